@@ -101,7 +101,9 @@ Fixpoint forced_G (fuel : nat) (this : path) (incs : list path) (p : plat) : res
       let '(p1, res) := find_include fs (n, this, false) p in
       match res with
       | None => forced_G fuel this r p1
-      | Some f => match run_file_G fuel f p1 with Ok p2 => forced_G fuel this r p2 | Err e => Err e end
+      | Some f =>
+          if mem_path f (once p1) then forced_G fuel this r p1            (* process_include *)
+          else match run_file_G fuel f p1 with Ok p2 => forced_G fuel this r p2 | Err e => Err e end
       end
   end.
 Definition run_tu_G (fuel : nat) (e : entry) : res plat :=
